@@ -605,6 +605,18 @@ class SymBool(object):
   def __int__(self):
     return int(bool(self))
 
+  def __gt__(self, o):
+    return SymInt(num_term(self)[0]) > o
+
+  def __ge__(self, o):
+    return SymInt(num_term(self)[0]) >= o
+
+  def __lt__(self, o):
+    return SymInt(num_term(self)[0]) < o
+
+  def __le__(self, o):
+    return SymInt(num_term(self)[0]) <= o
+
   # arithmetic on bools (True + 1 etc.) goes through ints
   def __add__(self, o):
     return SymInt(num_term(self)[0]) + o
